@@ -537,3 +537,387 @@ func c13r10(c *Ctx) {
 	}
 	c.MinCount(rule, "constant offsets into GetBytes results", n, 1)
 }
+
+func init() {
+	register("C03", c03r8)
+	register("C07", c07r7)
+	register("C08", c08r6)
+	register("C10", c10r7)
+	register("C11", c11r9)
+}
+
+// isClassAdMethodCall: call is a method call on a *classad.ClassAd named one of names.
+func isClassAdMethodCall(call *ssa.Call, names ...string) bool {
+	o := calleeObj(call)
+	if o == nil || o.Pkg() == nil || o.Pkg().Name() != "classad" {
+		return false
+	}
+	for _, n := range names {
+		if o.Name() == n {
+			return true
+		}
+	}
+	return false
+}
+
+// C03-R8: the resumption path judges the session by the policy of the command that is resumed.
+func c03r8(c *Ctx) {
+	const rule = "C03-R8"
+	c.Doc(rule, "in handleSessionResumption (and same-package helpers only it calls) the command handed to the per-command policy selector ServerConfigForCommand depends on the Command attribute of the client's resumption ad - the command the session is being resumed for - not only on the wire command, which is always DC_AUTHENTICATE: REQUIRED authentication of the resumed command's policy is what is enforced")
+	fn := c.needFn(rule, "security", "(*Authenticator).handleSessionResumption")
+	sel := c.needField(rule, "security", "Authenticator", "ServerConfigForCommand")
+	if fn == nil || sel == nil {
+		return
+	}
+	n := 0
+	scope := []*ssa.Function{fn}
+	for f := range c.reachableFns([]*ssa.Function{fn}, false) {
+		if f != fn && fnPkg(f) == fnPkg(fn) && c.onlyReachableFrom(f, fnSet(fn)) {
+			scope = append(scope, f)
+		}
+	}
+	for _, f := range scope {
+		f := f
+		allInstrs(f, func(_ *ssa.BasicBlock, _ int, in ssa.Instruction) {
+			call, ok := in.(*ssa.Call)
+			if !ok || call.Call.IsInvoke() || !readsField(call.Call.Value, sel) || len(call.Call.Args) != 1 {
+				return
+			}
+			n++
+			fromAd := c.mustDependDeep(f, call.Call.Args[0], func(v ssa.Value) bool {
+				cc, isCall := v.(*ssa.Call)
+				if !isCall || !isClassAdMethodCall(cc, "EvaluateAttrInt", "EvaluateAttrNumber", "EvaluateAttrString") || len(cc.Call.Args) < 2 {
+					return false
+				}
+				name, isC := constString(cc.Call.Args[1])
+				return isC && name == "Command"
+			})
+			// mustDepend is AND over phi edges; the fallback edge (attribute absent) legitimately carries the wire command,
+			// so accept a phi one of whose incoming values depends on the attribute
+			if !fromAd {
+				for _, o := range origins(f, call.Call.Args[0]) {
+					if ex, isEx := o.(*ssa.Extract); isEx {
+						if cc, isCall := ex.Tuple.(*ssa.Call); isCall && isClassAdMethodCall(cc, "EvaluateAttrInt", "EvaluateAttrNumber") && len(cc.Call.Args) >= 2 {
+							if name, isC := constString(cc.Call.Args[1]); isC && name == "Command" {
+								fromAd = true
+							}
+						}
+					}
+				}
+			}
+			c.Check(fromAd, rule, fnName(f)+"#policy-command", "the per-command policy is selected by the resumed command (client ad's Command)", "the per-command policy of a resumption is looked up under a command that does not come from the client's resumption ad: the resumed command's REQUIRED level is never consulted (the wire command is always DC_AUTHENTICATE)", call.Pos())
+		})
+	}
+	c.MinCount(rule, "ServerConfigForCommand calls on the resumption path", n, 1)
+}
+
+// C07-R7: the server address is keyed whole.
+func c07r7(c *Ctx) {
+	const rule = "C07-R7"
+	c.Doc(rule, "in SessionCache.LookupByCommand / MapCommand (and same-package helpers only they call) the address parameter reaches the command-map key unchanged: it is not sliced, cut, split or otherwise rewritten on the way (two daemons behind one shared-port endpoint differ only in the parameters of their sinful string)")
+	n := 0
+	var roots []*ssa.Function
+	for _, name := range []string{"(*SessionCache).LookupByCommand", "(*SessionCache).MapCommand"} {
+		if f := c.needFn(rule, "security", name); f != nil {
+			roots = append(roots, f)
+		}
+	}
+	if len(roots) == 0 {
+		return
+	}
+	rootSet := fnSet(roots...)
+	type item struct {
+		fn  *ssa.Function
+		par ssa.Value
+	}
+	var work []item
+	for _, f := range roots {
+		// the address is the second string parameter after the receiver (tag, addr, command...)
+		strs := []ssa.Value{}
+		for _, p := range f.Params {
+			if b, ok := p.Type().Underlying().(*types.Basic); ok && b.Info()&types.IsString != 0 {
+				strs = append(strs, p)
+			}
+		}
+		if len(strs) < 2 {
+			c.Undecided(rule, fnName(f)+"#addr-param", "cannot identify the address parameter", f.Pos())
+			continue
+		}
+		work = append(work, item{f, strs[1]})
+	}
+	seen := map[ssa.Value]bool{}
+	for len(work) > 0 {
+		it := work[0]
+		work = work[1:]
+		if seen[it.par] {
+			continue
+		}
+		seen[it.par] = true
+		n++
+		bad := false
+		// values carrying the address unchanged: the parameter, phis/conversions of it
+		carriers := map[ssa.Value]bool{it.par: true}
+		changed := true
+		for changed {
+			changed = false
+			allInstrs(it.fn, func(_ *ssa.BasicBlock, _ int, in ssa.Instruction) {
+				switch x := in.(type) {
+				case *ssa.Phi:
+					for _, e := range x.Edges {
+						if carriers[e] && !carriers[x] {
+							carriers[x] = true
+							changed = true
+						}
+					}
+				case *ssa.ChangeType:
+					if carriers[x.X] && !carriers[x] {
+						carriers[x] = true
+						changed = true
+					}
+				}
+			})
+		}
+		allInstrs(it.fn, func(_ *ssa.BasicBlock, _ int, in ssa.Instruction) {
+			switch x := in.(type) {
+			case *ssa.Slice:
+				if carriers[x.X] {
+					bad = true
+					c.Violate(rule, fnName(it.fn)+"#addr-rewritten", "the server address is sliced before it is used as a key component", x.Pos())
+				}
+			case *ssa.Call:
+				o := calleeObj(x)
+				for i, a := range x.Call.Args {
+					if !carriers[a] {
+						continue
+					}
+					if o != nil && o.Pkg() != nil && (o.Pkg().Path() == "strings" || o.Pkg().Path() == "net" || o.Pkg().Path() == "net/url" || o.Pkg().Path() == "regexp") {
+						// comparisons / emptiness tests are fine; anything producing a string from it is a rewrite
+						if sig, ok := o.Type().(*types.Signature); ok && sig.Results().Len() > 0 {
+							if b, isB := sig.Results().At(0).Type().Underlying().(*types.Basic); isB && b.Kind() == types.Bool {
+								continue
+							}
+						}
+						bad = true
+						c.Violate(rule, fnName(it.fn)+"#addr-rewritten", "the server address is passed through "+o.Pkg().Name()+"."+o.Name()+" before it is used as a key component", x.Pos())
+						continue
+					}
+					// follow same-package helpers only these functions call (e.g. a shared key builder)
+					if g := calleeFn(x); isModuleFn(g) && fnPkg(g) == fnPkg(it.fn) && i < len(g.Params) && (rootSet[g] || c.onlyReachableFrom(g, rootSet)) {
+						work = append(work, item{g, g.Params[i]})
+					}
+				}
+			}
+		})
+		if !bad {
+			c.Ok(rule, fnName(it.fn)+"#addr-whole", "the address is used as given", it.fn.Pos())
+		}
+	}
+	c.MinCount(rule, "address parameters followed", n, 2)
+}
+
+// C08-R6: after a secret marker nothing is read from the stream before the crypto bracket opens.
+func c08r6(c *Ctx) {
+	const rule = "C08-R6"
+	c.Doc(rule, "in the three ClassAd receivers every frame-consuming call (a *Message method from which ensureData is reachable) that can only be reached through the 'expression == SecretMarker' outcome is made through a function that passes PrepareCryptoForSecret (or the stream-has-no-toggle edge) before its first read: the frame that follows a marker was written under the temporary crypto state and must not be pulled in (e.g. by an extra ensureData) while that state is still off")
+	marker := c.needObj(rule, "message", "SecretMarker")
+	ens := c.needFn(rule, "message", "(*Message).ensureData")
+	if marker == nil || ens == nil {
+		return
+	}
+	mk, _ := marker.(*types.Const)
+	mval := ""
+	if mk != nil {
+		mval, _ = constantToString(mk)
+	}
+	// *Message methods that can consume from the stream
+	consumes := map[*ssa.Function]bool{ens: true}
+	changed := true
+	for changed {
+		changed = false
+		for _, f := range c.FnsOfPkg("message") {
+			if consumes[f] {
+				continue
+			}
+			allInstrs(f, func(_ *ssa.BasicBlock, _ int, in ssa.Instruction) {
+				if call, ok := in.(ssa.CallInstruction); ok && !consumes[f] {
+					if g := calleeFn(call); g != nil && consumes[g] {
+						consumes[f] = true
+						changed = true
+					}
+				}
+			})
+		}
+	}
+	// bracketed(g): every path of g from entry to its first consuming call passes Prepare or the no-toggle edge
+	bracketed := func(g *ssa.Function) bool {
+		cuts := newCuts()
+		allInstrs(g, func(b *ssa.BasicBlock, _ int, in ssa.Instruction) {
+			if call, ok := in.(*ssa.Call); ok && call.Call.IsInvoke() && call.Call.Method.Name() == "PrepareCryptoForSecret" {
+				cuts.AddInstrs(in)
+			}
+			if ta, ok := in.(*ssa.TypeAssert); ok && ta.CommaOk {
+				// the !ok edge of "sc, ok := m.stream.(secretCrypto)"
+				for _, r := range *ta.Referrers() {
+					if ex, isEx := r.(*ssa.Extract); isEx && ex.Index == 1 {
+						_, fE := boolEdges(g, ex)
+						cuts.AddEdges(fE...)
+					}
+				}
+			}
+		})
+		okAll := true
+		allInstrs(g, func(_ *ssa.BasicBlock, _ int, in ssa.Instruction) {
+			if call, ok := in.(ssa.CallInstruction); ok && okAll {
+				h := calleeFn(call)
+				reads := h != nil && consumes[h]
+				if call.Common().IsInvoke() && call.Common().Method.Name() == "ReadFrame" {
+					reads = true // the primitive pull of a frame from the stream
+				}
+				if reads && findPath(entryPoint(g), Target{Instr: in}, cuts) != nil {
+					okAll = false
+				}
+			}
+		})
+		return okAll
+	}
+	n := 0
+	for _, name := range []string{"getClassAdFromMessageWithMaxSize", "(*Message).GetClassAdRawBody", "(*Message).SkipClassAdRaw"} {
+		fn := c.needFn(rule, "message", name)
+		if fn == nil {
+			continue
+		}
+		// marker outcome edges: x == SecretMarker (true edge), or the true edge of a bool call handed the marker constant
+		var mEdges []Edge
+		for _, b := range fn.Blocks {
+			ifi := blockIf(b)
+			if ifi == nil {
+				continue
+			}
+			a := condAtom(ifi.Cond)
+			switch a.Op {
+			case token.EQL, token.NEQ:
+				sx, okx := constString(a.X)
+				sy, oky := constString(a.Y)
+				if (okx && sx == mval) || (oky && sy == mval) {
+					eq := a.Op == token.EQL
+					if a.Neg {
+						eq = !eq
+					}
+					if eq {
+						mEdges = append(mEdges, Edge{b, 0})
+					} else {
+						mEdges = append(mEdges, Edge{b, 1})
+					}
+				}
+			case token.ILLEGAL:
+				for _, o := range origins(fn, a.X) {
+					if oc, _ := originCall(o); oc != nil {
+						for _, arg := range oc.Common().Args {
+							if s, ok := constString(arg); ok && s == mval {
+								t := Edge{b, 0}
+								if a.Neg {
+									t = Edge{b, 1}
+								}
+								mEdges = append(mEdges, t)
+							}
+						}
+					}
+				}
+			}
+		}
+		if len(mEdges) == 0 {
+			c.Undecided(rule, fnName(fn)+"#marker-test", "no test against SecretMarker found in this receiver", fn.Pos())
+			continue
+		}
+		n++
+		cuts := newCuts().AddEdges(mEdges...)
+		bad := false
+		allInstrs(fn, func(_ *ssa.BasicBlock, _ int, in ssa.Instruction) {
+			call, ok := in.(ssa.CallInstruction)
+			if !ok {
+				return
+			}
+			g := calleeFn(call)
+			if g == nil || !consumes[g] {
+				return
+			}
+			// only calls that lie behind the marker outcome
+			if findPath(entryPoint(fn), Target{Instr: in}, cuts) != nil {
+				return
+			}
+			// a loop's next iteration is reachable without the marker edge, so what remains is the marker branch
+			if !bracketed(g) {
+				bad = true
+				c.Violate(rule, fnName(fn)+"#read-after-marker:"+g.Name(), "after a SecretMarker the receiver reads from the stream through "+g.Name()+" before the crypto-for-secret bracket is open: the encrypted secret frame is pulled in as cleartext", in.Pos())
+			}
+		})
+		if !bad {
+			c.Ok(rule, fnName(fn)+"#marker-then-bracket", "the first read after a marker happens inside the crypto bracket", fn.Pos())
+		}
+	}
+	c.MinCount(rule, "receivers with a marker test", n, 2)
+}
+
+// C10-R7: the session identifier is always part of the post-authentication ad.
+func c10r7(c *Ctx) {
+	const rule = "C10-R7"
+	c.Doc(rule, "every success return of createPostAuthAd passes a Set of the Sid attribute (here or in a helper): the client learns the session identifier on every successful handshake, with or without a key, so both ends report the same one")
+	fn := c.needFn(rule, "security", "(*Authenticator).createPostAuthAd")
+	if fn == nil {
+		return
+	}
+	hit := func(in ssa.Instruction) bool {
+		call, ok := in.(*ssa.Call)
+		if !ok || !isClassAdMethodCall(call, "Set", "InsertAttr", "InsertAttrString") || len(call.Call.Args) < 3 {
+			return false
+		}
+		s, isC := constString(call.Call.Args[1])
+		return isC && s == "Sid"
+	}
+	always, _ := c.deepSites(fn, hit)
+	tg := c.successTargets(fn)
+	ok := len(always) > 0 && len(tg) > 0
+	var wit []string
+	for _, t := range tg {
+		if p := findPath(entryPoint(fn), t.Target(), newCuts().AddInstrs(always...)); p != nil {
+			ok = false
+			wit = c.describePath(p)
+		}
+	}
+	c.Check(ok, rule, fnName(fn)+"#sets:Sid", "the post-auth ad always carries Sid", "createPostAuthAd can succeed without setting Sid: the server records a session id the client never learns, so the two ends report different session identifiers", fn.Pos(), wit...)
+	c.MinCount(rule, "Sid writers", len(always), 1)
+}
+
+// C11-R9: a signing key is never empty.
+func c11r9(c *Ctx) {
+	const rule = "C11-R9"
+	c.Doc(rule, "every success return of loadSigningKey passes an edge on which a byte slice read for the key is known non-empty (len(key) != 0), tested here or inside a same-package helper on all of its success paths: an empty key file never counts as a signing key (anyone can compute signatures under the empty key)")
+	fn := c.needFn(rule, "security", "(*Authenticator).loadSigningKey")
+	if fn == nil {
+		return
+	}
+	edgesOf := func(f *ssa.Function) []Edge {
+		var es []Edge
+		for _, b := range f.Blocks {
+			root, _, nz, ok := zeroEdges(b)
+			if !ok {
+				continue
+			}
+			if call, isCall := root.(*ssa.Call); isCall {
+				if bi, isB := call.Call.Value.(*ssa.Builtin); isB && bi.Name() == "len" && isByteSlice(call.Call.Args[0].Type()) {
+					es = append(es, nz)
+				}
+			}
+		}
+		return es
+	}
+	cuts := c.condCutsDeep(fn, edgesOf, deepDepth)
+	tg := c.successTargets(fn)
+	n := 0
+	for _, t := range tg {
+		n++
+		p := findPath(entryPoint(fn), t.Target(), cuts)
+		c.Check(p == nil, rule, fmt.Sprintf("%s#return%d:non-empty", fnName(fn), retOrdinal(fn, t.Ret)), "behind a non-empty-key edge", "loadSigningKey can return a key without its emptiness having been tested: a zero-length key file yields the empty signing key", t.Ret.Pos(), c.describePath(p)...)
+	}
+	c.MinCount(rule, "success returns of loadSigningKey", n, 1)
+}
